@@ -9,11 +9,17 @@
 EXTENDS Integers, Sequences, FiniteSets, TLC
 CONSTANTS Histories, PredTypes, LmeCases
 NaN == 99
-VARIABLES part, hist, ptype, lme
-vars == <<part, hist, ptype, lme>>
+VARIABLES part, hist, ptype, lme,
+          reuse   \* what the same model object was used for just before: "fresh" (nothing); constant model: "swapped_columns"
+                  \* (a data set with the same two features in the other column order), "other_names" (other feature names);
+                  \* LME: "after_estimates" (trajectories of two other individuals and a personalization were computed first).
+                  \* The expected results below do not mention it: estimators are functions of the case only.
+vars == <<part, hist, ptype, lme, reuse>>
 NoLme == [ages |-> <<0>>, ys |-> <<0>>, b0 |-> 0, b1 |-> 0, c11 |-> 1, c12 |-> 0, c22 |-> 1, slope |-> FALSE]
-Init == \/ (part = "constant" /\ hist \in Histories /\ ptype \in PredTypes /\ lme = NoLme)
-        \/ (part = "lme" /\ lme \in LmeCases /\ hist = <<[age |-> 1, val |-> 1]>> /\ ptype = "last")
+Init == \/ (part = "constant" /\ hist \in Histories /\ ptype \in PredTypes /\ lme = NoLme
+            /\ reuse \in {"fresh", "swapped_columns", "other_names"})
+        \/ (part = "lme" /\ lme \in LmeCases /\ hist = <<[age |-> 1, val |-> 1]>> /\ ptype = "last"
+            /\ reuse \in {"fresh", "after_estimates"})
 Next == UNCHANGED vars
 Spec == Init /\ [][Next]_vars
 
